@@ -1378,6 +1378,13 @@ def repackage_ooxml(data, mode):
     for name, raw in members:
         if name == "docProps/core.xml":
             if mode == "moved":
+                if b"dcterms:created" not in raw:      # make sure the moved part carries the dates
+                    dates = (b'<dcterms:created xsi:type="dcterms:W3CDTF">2020-01-02T03:04:05Z</dcterms:created>'
+                             b'<dcterms:modified xsi:type="dcterms:W3CDTF">2021-02-03T04:05:06Z</dcterms:modified>')
+                    if b"</cp:coreProperties>" in raw:
+                        raw = raw.replace(b"</cp:coreProperties>", dates + b"</cp:coreProperties>")
+                    else:
+                        raw = _re.sub(rb"<cp:coreProperties\b([^>]*)/>", lambda m: b"<cp:coreProperties" + m.group(1) + b">" + dates + b"</cp:coreProperties>", raw)
                 out.append((new_name, raw))
             elif mode == "dateless":
                 out.append((name, _re.sub(rb"<dcterms:(created|modified)\b.*?</dcterms:\1>", b"", raw, flags=_re.S)))
